@@ -49,7 +49,7 @@ class AuthClientDriver:
         ring = os.path.join(self.dir, '.dbus-keyrings', 'ctx')
         if cookie_ok:
             with open(ring, 'wb') as f:
-                f.write(b'7 100 deadbeef\n1 100 ' + self.cookie + b'\n')
+                f.write(b'12 100 deadbeef\n1 100 ' + self.cookie + b'\n21 100 00ff\n')      # ids that share digits: only the id asked for counts
         elif os.path.exists(ring):
             os.unlink(ring)
         # the client looks for the keyring under ~ : point HOME at the scratch directory instead of
